@@ -76,6 +76,10 @@ def lead_in(r, kind):
         return [f"seg noise {r.range(0, 3000)} 0.001 g",
                 c03rig.tx_seg(ptx, False, r.below(10) / 10, r.choice(PPMS), r.choice(GAINS), r.choice(DCS), 0.0),
                 r.choice([f"seg zeros {gap}", f"seg noise {gap} 0.001 g"])], [ptx["lsf"]]
+    if kind == "longprevtx":
+        # a long earlier transmission (the clock filter's covariance has converged), a short pause, then the transmission under test
+        ptx = c03rig.make_tx(r, r.range(250, 300))
+        return [c03rig.tx_seg(ptx, False, r.below(10) / 10, r.choice([0, 20, -20]), 1.0, 0.0, 0.0), f"seg zeros {r.range(2400, 4800)}"], [ptx["lsf"]]
     raise ValueError(kind)
 
 
@@ -100,6 +104,19 @@ def gen_cases(ctx, n, lengths, trace_every=1):
         segs = segs + [c03rig.tx_seg(tx, True, par["tau"], par["ppm"], par["gain"], par["dc"], sig), "seg zeros 4800"]
         trace = (k % trace_every == 0)
         cases.append({"name": f"c03_{k}", "text": c03rig.case_text(r.next() & 0xFFFFFFFF, trace, segs), "trace": trace,
+                      "tx": tx, "par": par})
+    # a second transmission from a station with another clock, right after a long one (state of the clock filter carried over)
+    for k in range(max(4, n // 20)):
+        r = rng.fork(f"second{k}")
+        nfr = 50
+        tx = c03rig.make_tx(r, nfr)
+        ppm = [120, -130, 135, -120, 100, -140, 160, -100][k % 8] if k < 8 else r.range(-200, 200)
+        par = {"tau": r.below(10) / 10.0, "ppm": ppm, "gain": 1.0, "dc": 0.0, "snr": None, "secs": 2, "frames": nfr, "lead": "longprevtx"}
+        segs, prev = lead_in(r, "longprevtx")
+        par["earlier_lsfs"] = prev
+        par["lead_segments"] = [s[:70] for s in segs]
+        segs = segs + [c03rig.tx_seg(tx, True, par["tau"], par["ppm"], par["gain"], par["dc"], 0.0), "seg zeros 4800"]
+        cases.append({"name": f"c03_second_{k}", "text": c03rig.case_text(r.next() & 0xFFFFFFFF, False, segs), "trace": False,
                       "tx": tx, "par": par})
     return cases
 
@@ -127,7 +144,14 @@ def classify(res, par, what, detail):
         if e:
             detail["deviation_estimate_rel_error"] = round(e[0], 4)
             detail["offset_estimate_error_in_symbol_spacings"] = round(e[1], 4)
-            if abs(e[0]) > 0.05 or abs(e[1]) > 0.08:
+            # the recorded finding, narrowly: level estimators started on an idle channel (no earlier signal in the history) and still off,
+            # and the damage is a marginal symbol decision (a bit or two of one frame), not a frame of garbage
+            nbits = None
+            if detail.get("expected") and detail.get("delivered") and len(detail["expected"]) == len(detail["delivered"]):
+                nbits = bin(int(detail["expected"], 16) ^ int(detail["delivered"], 16)).count("1")
+                detail["bits_in_error"] = nbits
+            if (abs(e[0]) > 0.05 or abs(e[1]) > 0.08) and what == "frame-corrupt" and nbits is not None and nbits <= 2 \
+                    and par.get("lead") in ("zeros", "noise"):
                 return what + "-estimator-misconverged"
     return what
 
@@ -186,6 +210,9 @@ def run(ctx):
         start = r["main"][-1]
         status, what, detail = c03rig.oracle_c03(r, c["tx"], start)
         ctx.case(c["name"] + " " + key, nontrivial=(status != "not-steady"))
+        import os
+        if os.environ.get("C03_DEBUG") and "second" in c["name"]:
+            ctx.log(f"DEBUG {c['name']} ppm={par['ppm']} status={status} what={what} steady={detail.get('steady_from_frame')} delivered={detail.get('delivered_stream_frames')}")
         if status != "not-steady":
             nsteady += 1
             acq.append(detail.get("steady_from_frame"))
